@@ -163,6 +163,11 @@ func (a *sessionAwareAdapter) Broadcast(header *parser.PacketHeader, v []any, op
 	withoutAcknowledgement := header.ID == nil
 	if isEventPacket && withoutAcknowledgement {
 		a.mu.Lock()
+		// The packet is delivered while the lock is held, so that the order of the log
+		// is the order of delivery. Otherwise, with concurrent broadcasts, a client can receive
+		// packet B before packet A although A is before B in the log. It then reconnects
+		// with the offset of A, and B is sent to it for the second time.
+		defer a.mu.Unlock()
 		id := a.yeaster.Yeast()
 		v = append(v, id)
 
@@ -174,7 +179,6 @@ func (a *sessionAwareAdapter) Broadcast(header *parser.PacketHeader, v []any, op
 			Data:      v,
 		}
 		a.packets = append(a.packets, packet)
-		a.mu.Unlock()
 	}
 	a.inMemoryAdapter.Broadcast(header, v, opts)
 }
